@@ -327,7 +327,7 @@ PROPS = {
         'assumptions': ['Mode::with_extensions only', 'two fixed option tables'],
     },
     'C02': {
-        'v_units': ['cmdsearch', 'looplevel', 'whileloop', 'forloop', 'condframe', 'simplecmd', 'funcall'],
+        'v_units': ['cmdsearch', 'looplevel', 'whileloop', 'forloop', 'casecmd', 'condframe', 'simplecmd', 'funcall'],
         'k_units': ['loopcount'],
         'level': 'other',
         'explanation': (
@@ -357,6 +357,11 @@ PROPS = {
             'result with one break / continue level taken off (a break / continue of this loop ends it / starts the next round), every other '
             'divert unchanged; its status is what the last run left, and 0 when there is no value; an expansion error or a read-only loop '
             'variable is reported once and nothing (more) runs. '
+            '(3c) Unit casecmd (Verus): case.rs execute, against a monitor automaton that flags every test or run out of turn: the items are tested in '
+            'order from the first; a body runs only right after its own patterns matched or right after the body before it ran and said `;&`; '
+            'after `;&` the next item is not tested, after `;|` testing goes on with the next item, after `;;` or a divert nothing happens; the '
+            'command goes on until nothing is left to do; a divert out of a body is handed on; the status is zero when nothing ran and '
+            'otherwise that of the last body executed (zero for an empty one). '
             '(4) Unit condframe (Verus, shared with C10): one element of an and-or list after the first runs iff (`&&` and the status so far '
             'is zero) or (`||` and it is not), otherwise nothing runs and the status stays - left to right, equal precedence, because each '
             'element only looks at the status left by what ran before it; `!` inverts only the status (0 <-> 1 / non-zero -> 0) and only when '
@@ -374,7 +379,7 @@ PROPS = {
             '(a later word without one does not erase it), and a command without a name starts from exactly that status or 0 (XCU 2.9.1); the if command tries its conditions in order, runs a `then` branch only right after ITS condition held and the else '
             'branch only after every condition failed, has the status and result of the branch it ran, and status 0 when it ran none. '
             'NOT decided: everything else C02 says - which commands run in which order with which $?, multi-command pipelines, '
-            'case, subshells, built-in execution, the $PATH walk '
+            'the pattern matching inside case (matches), subshells, built-in execution, the $PATH walk '
             'itself (search_path: iterator adapters over strings, assumed), Env::builtin (availability under posixly-correct / portable).'),
         'trusted_base': ['Verus 0.2026.09.13 + Z3', 'Kani 0.68.0 + CBMC 6.11', '/verif/tools/vextract.py, /verif/tools/kunit.py'],
         'assumptions': [
@@ -383,6 +388,7 @@ PROPS = {
             'unit loopcount (Kani): Frame::Builtin frames are not among the generated frames',
             'units simplecmd / funcall: word expansion, classification, the four executors (in simplecmd), error handlers, apply_errexit, the assignment performer, executing a function body, the environment hook, RedirGuard::perform_redirs, search_path, start_external_utility_in_subshell_and_wait, print_error, xtrace are opaque calls observed by ghost monitors; RAII of the context guard and of the redirection guard is assumed in the contracts of Env::push_context / RedirGuard::new (external_body), and perform_redirs is assumed to keep the reference the guard was made with; `&mut guard` is checked as `guard.env`, `let env = &mut RedirGuard::new(env)` as an owning binding; format!(..).into() messages are a helper call; await points dropped',
             'unit forloop: expanding the name and the words, the positional parameters, tracing, get_or_create_variable + assign (checked as ONE helper call), executing the body and the error handlers are opaque calls observed by a ghost monitor; `for PATTERN in vec` is checked as `while let Some(x) = <take the first element off>` (assumed contract of the helper; Verus has no `continue` in for loops); preconditions: a fresh monitor and a NON-EMPTY body (the parser rejects `do done`; with an empty body the function would leave $? alone for an empty value list); RAII of the frame guard assumed; await points dropped; termination not claimed',
+            'unit casecmd: expanding the subject, tracing, testing the patterns of one item (matches) and executing one body are opaque calls driving a ghost monitor; the two calls are given the item itself instead of its patterns / body field (items carry their index as ghost data; precondition items_wf); testing patterns is assumed to leave $? alone; `for item in items` is checked as a while loop over the index; enum CaseContinuation is extracted from yash-syntax; preconditions: a fresh monitor; await points dropped',
             'unit whileloop: List::execute and evaluate_condition are external_body (any result, appended to a ghost log in the reduced Env); `?` on ControlFlow through assumed contracts of Try::branch / FromResidual::from_residual; await points dropped; termination not claimed',
         ],
     },
